@@ -3,8 +3,8 @@ package main
 import (
 	"time"
 
-	okdb "github.com/shutter-network/rolling-shutter/rolling-shutter/chainobserver/db/keyper"
 	ocdb "github.com/shutter-network/rolling-shutter/rolling-shutter/chainobserver/db/collator"
+	okdb "github.com/shutter-network/rolling-shutter/rolling-shutter/chainobserver/db/keyper"
 	osdb "github.com/shutter-network/rolling-shutter/rolling-shutter/chainobserver/db/sync"
 	pdb "github.com/shutter-network/rolling-shutter/rolling-shutter/keyperimpl/primev/database"
 	mdb "github.com/shutter-network/rolling-shutter/rolling-shutter/medley/db"
